@@ -37,6 +37,10 @@ CHECKS["C12"] = ("E1-enum", "exploration",
   "Bounded-exhaustive over (mode, segment size, ordered store initial blocks, output initial block, start, stop, final block) on boundary sets, ~8.6M tuples (thorough ~10^8), through the real BuildRequestDetails -> tier1 glue -> BuildTier1RequestPlan -> segmenters, against the covering conditions stated by the property; plus every cursor shape x resolver answer.",
   "The five lines of glue of Tier1Service.blocks are replicated in the harness (cross-checked against SessionInit of whole-system runs); graphs are k stores + one map.",
   "bounded exhaustive enumeration of request configurations on the real resolution and planning functions", "3/C12")
+CHECKS["C14"] = ("E1-enum", "exploration",
+  "Bounded-exhaustive over module graphs: every module list of <=3 modules over the full per-module domain (11M graph x output x mode cases; thorough adds n=4 and n=5 on reduced domains, 190M cases) plus 5 families of 6-8 modules, through the real ValidateModules, NewModuleGraph and exec.NewOutputModuleGraph; the staging is judged against an independent DFS closure and the ordering invariants, with a per-case watchdog for termination.",
+  "Graph alphabet: one binary, one policy, names a..h; n>=6 only through hand-made families.",
+  "bounded exhaustive enumeration of module graphs on the real staging code", "3/C14")
 PENDING = {}
 def main():
     checks = []
